@@ -160,6 +160,22 @@ def run(ctx):
     fast = gens.get(gen_common.GENERATORS[0])
     cust = gens.get(gen_common.GENERATORS[1])
 
+    # sampling WITH replacement in place of a permutation: `random.choices(xs, k=len(xs))` keeps the length but not the multiset -
+    # a vertex no longer occupies exactly jds[v][k] slots.  Independent of how the rest of the generator is written.
+    with ctx.obligation("C01.2", "stub lists are permuted, never re-sampled") as o:
+        for qn in gen_common.GENERATORS:
+            f_ = prog.func(qn)
+            if f_ is None:
+                continue
+            hits = [n for n in astx.walk_fn(f_.node) if isinstance(n, ast.Call) and prog.external(f_.module, n.func) in ("random.choices", "numpy.random.choice")]
+            for n in hits:
+                kk = next((k.value for k in n.keywords if k.arg in ("k", "size")), None)
+                if n.args and kk is not None and txt(kk) == f"len({txt(n.args[0])})" and not any(k.arg == "replace" and astx.const_value(k.value) is False for k in n.keywords):
+                    o.violated(f_, n, f"`{txt(n)[:70]}` draws the stubs WITH replacement: the list keeps its length but not its content - some vertex gets more slots than its degree "
+                                      "and another fewer, while the joint degree sequence is reported unchanged", sure=True)
+            if not hits:
+                o.holds(f_, f_.node, "no sampling with replacement in the generator", construct="scan for random.choices")
+
     with ctx.obligation("C01.1", "stub multiset: vertex v repeated jds[v][k] times, v from 0", floor=2) as o:
         for g in gens.values():
             _stub_shape(g, o)
@@ -409,6 +425,11 @@ def run(ctx):
             b = None
             if len(ol.body) == 1 and isinstance(ol.body[0], ast.Expr):
                 b = match(pat(f"$v.append($p[{index}].pop())"), ol.body[0].value)
+                if b is None:
+                    # pop(-1) and pop(len(X) - 1) name the last chunk explicitly: the same chunk as pop()
+                    b1 = match(pat(f"$v.append($p[{index}].pop($a))"), ol.body[0].value)
+                    if b1 is not None and (astx.const_value(b1["a"]) == -1 or txt(b1["a"]) == f"len({txt(b1['p'])}[{index}]) - 1"):
+                        b = b1
             if b is None:
                 bb = match(pat("$v.append($p[$i].pop(*$ARGS))"), ol.body[0].value) if len(ol.body) == 1 and isinstance(ol.body[0], ast.Expr) else None
                 if bb is not None and txt(bb["i"]) != index:
